@@ -204,6 +204,13 @@ func (w *world) apply(c *checker, op Op) {
 		m.saved = nil
 		m.has = false
 	}
+	// reads between events: queries are also made after every operation of the history, not only in
+	// the state under examination (a read must not influence later answers)
+	safe(func() {
+		w.repo.Get(w.ctx, 0, 5)
+		w.repo.Get(w.ctx, -1<<31, -1)
+		w.repo.Count()
+	})
 }
 
 var scoreBounds = []int32{-5, -1, 0, 1, 4, 5}
